@@ -146,6 +146,8 @@ func shape(id string, mr1, mr4 *ppb.Patient) any {
 		return C{system.String("a"), system.Integer(1), system.String("a")}
 	case "empty":
 		return C{}
+	case "one":
+		return C{system.Integer(9)}
 	case "elem":
 		return mr1.Name[0]
 	case "detached":
